@@ -24,6 +24,19 @@ Proof.
   rewrite seq_S, fold_left_app. simpl. apply Hs; auto.
 Qed.
 
+Lemma run_ops_inv {X O} (P : X -> Prop) (ok : O -> bool) (def : O -> X -> bool) (app : O -> X -> X) :
+  (forall o y, P y -> ok o = true -> def o y = true -> P (app o y)) ->
+  forall ops x y, P x -> forallb ok ops = true -> run_ops def app ops x = Some y -> P y.
+Proof.
+  intros Hs. induction ops as [|o r IH]; simpl; intros x y Hx Hok Hr.
+  - injection Hr as <-. exact Hx.
+  - apply andb_true_iff in Hok. destruct Hok as [Ho Hr'].
+    destruct (def o x) eqn:D; [|discriminate]. eapply IH; [|exact Hr'|exact Hr]. apply Hs; auto.
+Qed.
+
+Lemma forallb_true {O} (ops : list O) : forallb (fun _ => true) ops = true.
+Proof. induction ops; simpl; auto. Qed.
+
 Lemma divmod_inj d i j i' j' : j < d -> j' < d -> i * d + j = i' * d + j' -> i = i' /\ j = j'.
 Proof.
   intros Hj Hj' E.
@@ -350,10 +363,15 @@ Proof.
   - rewrite gm_copy_id; auto.
   - apply gm_resize_consistent; auto.
   - apply gm_augment_consistent; auto.
+  - apply gm_augment_consistent; auto.
 Qed.
 
-Lemma gm_reachable ops c l ci q : Consistent (fold_left (fun g o => gm_apply S junk o g) ops (gm_ctor S c l ci q)).
-Proof. apply fold_left_inv; [apply gm_ctor_consistent|]. intros. apply gm_apply_consistent. auto. Qed.
+(* every history along which the C++ is defined *)
+Lemma gm_run_consistent ops g g' : Consistent g -> gm_run S junk ops g = Some g' -> Consistent g'.
+Proof.
+  intros H R. eapply (run_ops_inv Consistent (fun _ => true)); [|exact H|apply forallb_true|exact R].
+  intros. apply gm_apply_consistent. auto.
+Qed.
 
 Definition Gaussian_ok (g : gm) : Prop := Consistent g /\ components S g = 1.
 
@@ -368,21 +386,40 @@ Qed.
 Lemma gm_augment_components q g : components S (snd (gm_augment S q g)) = components S g.
 Proof. unfold gm_augment. destruct (negb _); reflexivity. Qed.
 
-Lemma gauss_apply_ok o g : Gaussian_ok g -> Gaussian_ok (gauss_apply S junk o g).
+Lemma gauss_apply_consistent o g : Consistent g -> Consistent (gauss_apply S junk o g).
 Proof.
-  intros [H H1]. destruct o; simpl.
-  - split; [apply gm_fill_consistent; auto|exact H1].
-  - rewrite gm_copy_id. split; auto.
-  - split; [apply gm_resize_consistent; auto|]. unfold gauss_resize.
-    destruct (gm_resize_components 1 l ci g) as [E|[E E']]; [exact E|rewrite E; exact H1].
-  - split; [apply gm_augment_consistent; auto|]. rewrite gm_augment_components. exact H1.
+  intros H. destruct o; simpl.
+  - apply gm_fill_consistent; auto.
+  - rewrite gm_copy_id; auto.
+  - apply gm_resize_consistent; auto.
+  - apply gm_augment_consistent; auto.
+  - apply gm_augment_consistent; auto.
+  - apply gm_resize_consistent; auto.
 Qed.
 
-Lemma gauss_reachable ops l ci q : Gaussian_ok (fold_left (fun g o => gauss_apply S junk o g) ops (gauss_ctor S l ci q)).
+Lemma gauss_apply_ok o g : Gaussian_ok g -> gaussop_single S o = true -> Gaussian_ok (gauss_apply S junk o g).
 Proof.
-  apply fold_left_inv.
-  - split; [apply gm_ctor_consistent|reflexivity].
-  - intros. apply gauss_apply_ok. auto.
+  intros [H H1] Hs. split; [apply gauss_apply_consistent; exact H|]. destruct o; simpl in *.
+  - exact H1.
+  - exact H1.
+  - unfold gauss_resize. destruct (gm_resize_components 1 l ci g) as [E|[E E']]; [exact E|rewrite E; exact H1].
+  - rewrite gm_augment_components. exact H1.
+  - rewrite gm_augment_components. exact H1.
+  - apply Nat.eqb_eq in Hs. subst c.
+    destruct (gm_resize_components 1 l ci g) as [E|[E E']]; [exact E|rewrite E; exact H1].
+Qed.
+
+Lemma gauss_run_consistent ops g g' : Consistent g -> gauss_run S junk ops g = Some g' -> Consistent g'.
+Proof.
+  intros H R. eapply (run_ops_inv Consistent (fun _ => true)); [|exact H|apply forallb_true|exact R].
+  intros. apply gauss_apply_consistent. auto.
+Qed.
+
+Lemma gauss_run_ok ops g g' : Gaussian_ok g -> forallb (gaussop_single S) ops = true ->
+  gauss_run S junk ops g = Some g' -> Gaussian_ok g'.
+Proof.
+  intros H Hs R. eapply (run_ops_inv Gaussian_ok (gaussop_single S)); [|exact H|exact Hs|exact R].
+  intros. apply gauss_apply_ok; auto.
 Qed.
 
 (* --- particle sets *)
@@ -443,13 +480,6 @@ Proof.
   - apply shape_e_set_block. eapply shape_e_cresize_cols. eassumption.
 Qed.
 
-Definition pop_ok (o : pop S) (p : pset) : Prop :=
-  match o with
-  | PConcat _ rhs => concat_ok rhs p
-  | PPlus _ rhs => concat_ok rhs p
-  | _ => True
-  end.
-
 Lemma ps_apply_consistent o p : Consistent_ps p -> Consistent_ps (ps_apply S junk o p).
 Proof.
   intros H. destruct o; simpl.
@@ -459,10 +489,15 @@ Proof.
   - apply ps_augment_consistent; auto.
   - apply ps_concat_consistent; auto.
   - unfold ps_plus. rewrite ps_copy_id. apply ps_concat_consistent; auto.
+  - apply ps_augment_consistent; auto.
+  - apply ps_concat_consistent; auto.
 Qed.
 
-Lemma ps_reachable ops c l ci q : Consistent_ps (fold_left (fun p o => ps_apply S junk o p) ops (ps_ctor S c l ci q)).
-Proof. apply fold_left_inv; [apply ps_ctor_consistent|]. intros. apply ps_apply_consistent. auto. Qed.
+Lemma ps_run_consistent ops p p' : Consistent_ps p -> ps_run S junk ops p = Some p' -> Consistent_ps p'.
+Proof.
+  intros H R. eapply (run_ops_inv Consistent_ps (fun _ => true)); [|exact H|apply forallb_true|exact R].
+  intros. apply ps_apply_consistent. auto.
+Qed.
 
 
 (* ------------------------------------------------------------ accessors *)
@@ -523,9 +558,13 @@ Qed.
 
 (* a Gaussian: mean() / covariance() / weight() are component 0 *)
 Lemma gauss_accessors g : Gaussian_ok g ->
-  gauss_mean S g = gm_mean S g 0 /\ gauss_cov S g = gm_cov S g 0 /\ gauss_weight S g = gm_weight S g 0.
+  gauss_mean S g = gm_mean S g 0 /\ gauss_weight S g = gm_weight S g 0
+  /\ (forall i, gauss_mean_el S g i = gm_mean_el S g 0 i)
+  /\ (forall i j, gauss_cov_el S g i j = gm_cov_el S g 0 i j)
+  /\ gauss_cov S g = gm_cov S g 0.
 Proof.
-  intros [(H1 & H2 & H3 & H4 & H5 & H6) Hc]. split; [reflexivity|]. split; [|reflexivity].
+  intros [(H1 & H2 & H3 & H4 & H5 & H6) Hc]. split; [reflexivity|]. split; [reflexivity|].
+  split; [reflexivity|]. split; [intros i j; unfold gauss_cov_el, gm_cov_el; rewrite Nat.mul_0_r; reflexivity|].
   unfold gauss_cov, gm_cov. rewrite Hc, Nat.mul_1_r in H5. pose proof H5 as (R5 & C5 & W5).
   eapply mx_ext; [exact H5|eapply shape_e_middle_cols; exact H5|].
   intros i j Hi Hj. unfold e_middle_cols. rewrite get_mk by lia. f_equal. lia.
@@ -905,4 +944,58 @@ Qed.
 Lemma gm_augment_defined_ok q g : 1 <= components S g -> gm_augment_defined S q g = true.
 Proof. intros H. unfold gm_augment_defined. apply orb_true_iff. right. apply Nat.leb_le. exact H. Qed.
 
+
+(* p += p is defined only for an empty set *)
+Lemma ps_concat_self_defined_iff p : Consistent_ps p ->
+  (ps_concat_self_defined S junk p = true <-> components S (base S p) = 0).
+Proof.
+  intros [HC Hs].
+  pose proof HC as (_ & _ & _ & (R4 & C4 & W4) & (R5 & C5 & W5) & (R6 & C6 & W6)).
+  pose proof Hs as (Rs & Cs & Ws).
+  unfold ps_concat_self_defined, blk_ok. set (n := components S (base S p)) in *.
+  pose proof (shape_e_cresize_cols _ _ _ (n + n) (conj R4 (conj C4 W4))) as (Rm & Cm & _).
+  pose proof (shape_e_cresize_cols _ _ _ (n + n) (conj Rs (conj Cs Ws))) as (Rt & Ct & _).
+  pose proof (shape_e_cresize_cols _ _ _ (dcov S (base S p) * (n + n)) (conj R5 (conj C5 W5))) as (Rc & Cc & _).
+  pose proof (shape_e_cresize_vec _ _ (n + n) (conj R6 (conj C6 W6))) as (Rw & Cw & _).
+  rewrite Rm, Cm, Rt, Ct, Rc, Cc, Rw, Cw. rewrite !andb_true_iff, !Nat.eqb_eq, !Nat.leb_le.
+  split.
+  - intros [_ HW]. destruct HW as [[[E _] _] _]. lia.
+  - intros E. rewrite E. rewrite !Nat.mul_0_r. simpl. repeat split; lia.
+Qed.
+
 End C11.
+
+(* ------------------------------------------------------------ what is NOT true of the code *)
+Require Import BFL.ListOps.
+
+(* Resizing an AUGMENTED mixture to its noise-free layout with another component count is not
+   "changing only the number of components": dim and dim_covariance shrink, the full-resize branch
+   is taken, and because Eigen's resize keeps a buffer of unchanged size (3x2 -> 2x3) the old
+   cells reappear at other positions.  Premise dn = 0 of gm_resize_only_components is needed. *)
+Lemma gm_resize_with_noise_refuted :
+  exists (g : gm ZOps) (c i r : nat),
+    Consistent ZOps g /\ dn ZOps g = 1 /\ i < c /\ i < components ZOps g /\ r < dl ZOps g + dc ZOps g * dcc ZOps g
+    /\ gm_mean_el ZOps (gm_resize ZOps 0%Z c (dl ZOps g) (dc ZOps g) g) i r <> gm_mean_el ZOps g i r.
+Proof.
+  exists (snd (gm_augment ZOps (mk ZOps 1 1 (fun _ _ => 9%Z)) (gm_fill ZOps 1%Z (gm_ctor ZOps 2 2 0 false)))), 3, 1, 0.
+  split; [apply gm_augment_consistent; apply gm_fill_consistent; apply gm_ctor_consistent|].
+  split; [reflexivity|]. split; [lia|]. split; [vm_compute; lia|]. split; [vm_compute; lia|].
+  vm_compute. intro H. discriminate H.
+Qed.
+
+(* A Gaussian resized through a GaussianMixture& (the virtual 3-argument resize, hidden but not
+   overridden by Gaussian::resize) stops being a one-component object; Gaussian::covariance()
+   then returns the storage of all components. *)
+Lemma gauss_base_resize_refuted :
+  exists (g : gm ZOps) (c l ci : nat),
+    Gaussian_ok ZOps g /\ Consistent ZOps (gauss_apply ZOps 0%Z (NResizeBase ZOps c l ci) g)
+    /\ ~ Gaussian_ok ZOps (gauss_apply ZOps 0%Z (NResizeBase ZOps c l ci) g)
+    /\ gauss_cov ZOps (gauss_apply ZOps 0%Z (NResizeBase ZOps c l ci) g)
+        <> gm_cov ZOps (gauss_apply ZOps 0%Z (NResizeBase ZOps c l ci) g) 0.
+Proof.
+  exists (gauss_ctor ZOps 2 0 false), 3, 2, 0.
+  split; [split; [apply gm_ctor_consistent|reflexivity]|].
+  split; [apply gauss_apply_consistent; apply gm_ctor_consistent|].
+  split; [intros [_ H]; vm_compute in H; discriminate H|].
+  vm_compute. intro H. discriminate H.
+Qed.
